@@ -715,6 +715,9 @@ func rulesCosmosSearch(r *Run, rule string) {
 			continue
 		}
 		t := evalSearchBuilder(fl, p)
+		if t.Infeasible {
+			continue
+		}
 		// parameters appended: QueryParameter{Name: X}
 		for _, e := range p.Ev {
 			if e.Kind == EvAssign && len(e.Rhs) == 1 {
